@@ -676,3 +676,53 @@ Theorem C10_step_cell_sees_exactly_its_groups_events :
       end.
 Proof. exact step_cell_state_is_step_state. Qed.
 Print Assumptions C10_step_cell_sees_exactly_its_groups_events.
+
+(* ================================================================== DSL statistics functions (pkg/bifs/stats.go) *)
+From Miller Require Import C10.ModelDsl C10.ProofsDsl.
+(* the DSL function applied to the collection of a group's values IS the stats1 accumulator over the group's records
+   (ModelDsl.dsl_stat transliterates the BIFs; run_acc is the accumulator the verbs use).  Unconditional for the counting
+   / order functions; for the moment functions on all-numeric collections (the BIFs count empty values in n and turn a
+   string into an error, the verb skips empties before feeding: dsl_mean_counts_voids, dsl_sum_string_is_error) *)
+Theorem C10_dsl_counting_functions_are_the_accumulators :
+  forall xs, dsl_stat DCount xs = run_acc false ACount xs
+          /\ dsl_stat DNullCount xs = run_acc false ANullCount xs
+          /\ dsl_stat DDistinctCount xs = run_acc false ADistinctCount xs
+          /\ dsl_stat DMode xs = run_acc false AMode xs
+          /\ dsl_stat DAntimode xs = run_acc false AAntimode xs
+          /\ dsl_stat DMinLen xs = run_acc false AMinLen xs
+          /\ dsl_stat DMaxLen xs = run_acc false AMaxLen xs.
+Proof.
+  exact (fun xs => conj (dsl_count_is_accumulator xs) (conj (dsl_null_count_is_accumulator xs) (conj (dsl_distinct_count_is_accumulator xs)
+          (conj (dsl_mode_is_accumulator xs) (conj (dsl_antimode_is_accumulator xs) (conj (dsl_minlen_is_accumulator xs) (dsl_maxlen_is_accumulator xs))))))).
+Qed.
+Print Assumptions C10_dsl_counting_functions_are_the_accumulators.
+
+Theorem C10_dsl_percentile_functions_are_the_accumulators :
+  forall il p xs, dsl_stat (DPercentile il p) xs = run_acc il (APctl p) xs /\ dsl_stat (DMedian il) xs = run_acc il (APctl 50) xs.
+Proof. exact (fun il p xs => conj (dsl_percentile_is_accumulator il p xs) (dsl_median_is_accumulator il xs)). Qed.
+Print Assumptions C10_dsl_percentile_functions_are_the_accumulators.
+
+Theorem C10_dsl_moment_functions_are_the_accumulators :
+  forall xs, (no_strings xs = true -> dsl_stat DSum xs = run_acc false ASum xs)
+          /\ (all_num xs = true ->
+              dsl_stat DMean xs = run_acc false AMean xs /\ dsl_stat DVariance xs = run_acc false AVar xs
+              /\ dsl_stat DStddev xs = run_acc false AStddev xs /\ dsl_stat DMeanEB xs = run_acc false AMeanEB xs
+              /\ dsl_stat DSkewness xs = run_acc false ASkewness xs).
+Proof.
+  exact (fun xs => conj (dsl_sum_is_accumulator xs)
+          (fun H => conj (dsl_mean_is_accumulator xs H) (conj (dsl_variance_is_accumulator xs H) (conj (dsl_stddev_is_accumulator xs H)
+                    (conj (dsl_meaneb_is_accumulator xs H) (dsl_skewness_is_accumulator xs H)))))).
+Qed.
+Print Assumptions C10_dsl_moment_functions_are_the_accumulators.
+
+(* sum, sum2, sum3, sum4 = the power sums of the numeric elements, exactly over Q *)
+Theorem C10_dsl_power_sums_equal_definition :
+  forall k xs, (1 <= k <= 4)%nat -> no_strings xs = true ->
+    exists r, dsl_sumk k xs = SNum r /\ (qof r == pow_sum k (qs_of xs))%Q.
+Proof. exact dsl_sumk_is_pow_sum. Qed.
+Print Assumptions C10_dsl_power_sums_equal_definition.
+
+Example C10_nonvacuous_dsl :
+  all_num [B "4"; B "5"; B "9.5"] = true /\ no_strings [B "4"; B ""; B "9.5"] = true
+  /\ dsl_stat DMean [B "4"; B "5"; B "9"] = OInt 6 /\ dsl_stat DCount [B "4"; B ""; B "x"] = OInt 3.
+Proof. vm_compute. repeat split; reflexivity. Qed.
